@@ -50,7 +50,9 @@ fn orchard_value_sum(v: &orchard::value::ValueSum) -> Result<i128, Fail> {
     i64::try_from(*v).map(|x| x as i128).map_err(|e| Fail::new("pczt-value-sum-range", format!("Orchard value sum not an i64: {e:?}")))
 }
 
-pub fn check_pczt(c: &Case, p: &Plan, w: &World, res: PcztResult<LocalNetwork>) -> Result<Seen, Fail> {
+/// `announced`: for the deferred builder, the fee its `get_fee` reported just before building.
+pub fn check_pczt(c: &Case, p: &Plan, w: &World, res: PcztResult<LocalNetwork>, announced: Option<u64>) -> Result<Seen, Fail> {
+    let deferred = c.engine == Engine::Deferred;
     let k = keys();
     let mut seen = Seen::default();
     let PcztResult { pczt_parts: parts, sapling_meta, orchard_meta, ironwood_meta } = res;
@@ -69,12 +71,67 @@ pub fn check_pczt(c: &Case, p: &Plan, w: &World, res: PcztResult<LocalNetwork>) 
     };
     check_transparent_part(c, p, w, &vin, &vout)?;
     let mut t_bal: i128 = 0;
+    let mut t_in_sizes: Vec<usize> = vec![];
+    if deferred {
+        vensure!(parts.transparent.is_none() && parts.sapling.is_none(), "deferred-builder-foreign-bundle", "the deferred builder emitted a transparent or Sapling bundle");
+    }
     if let Some(b) = &parts.transparent {
         for (n, (i, inp)) in p.accepted(T_IN).zip(b.inputs()).enumerate() {
             let coin = &w.coins[i].1;
             vensure_eq!(inp.value().into_u64(), coin.value().into_u64(), "pczt-input-wrong-value", "transparent input {n} value");
             vensure!(script_bytes(Script::from(inp.script_pubkey())) == coin.script_pubkey().0 .0, "pczt-input-wrong-script", "transparent input {n} script_pubkey");
             t_bal += inp.value().into_u64() as i128;
+            // spend information: the redeem script exactly for P2SH coins (field doc: "The script
+            // required to spend this output, if it is P2SH. Set to None if this is a P2PKH output")
+            let got_redeem: Option<Vec<u8>> = inp.redeem_script().as_ref().map(|r| script_bytes(Script::from(r)));
+            vensure!(
+                got_redeem == p.redeem[i],
+                "pczt-input-wrong-redeem-script",
+                "transparent input {n}: redeem_script {:?}, requested {:?}",
+                got_redeem.as_ref().map(hex::encode),
+                p.redeem[i].as_ref().map(hex::encode)
+            );
+            if let Some(r) = &got_redeem {
+                vensure!(p2sh_script(&hash160(r)) == coin.script_pubkey().0 .0, "p2sh-redeem-script-not-for-coin", "transparent input {n}: hash160(redeem_script) does not match the coin's script hash");
+                seen.p2sh_inputs += 1;
+            }
+            // size with which the fee rule prices the emitted input
+            t_in_sizes.push(match &got_redeem {
+                None => P2PKH_PRICED_SIZE,
+                Some(r) => match parse_multisig_redeem_script(r) {
+                    Some((m, _)) => p2sh_multisig_input_size(m as usize, r.len()),
+                    // unknown size: only a fixed fee can have priced it
+                    None => 0,
+                },
+            });
+            // the builder signs with SIGHASH_ALL only, creates final inputs without lock-time
+            // requirements, and leaves every Signer / Spend Finalizer / Updater field unset
+            vensure_eq!(inp.sighash_type().encode(), 0x01, "pczt-input-sighash-type", "transparent input {n} sighash_type");
+            vensure!(inp.sequence().is_none_or(|s| s == u32::MAX), "pczt-input-not-final", "transparent input {n}: sequence {:?}", inp.sequence());
+            vensure!(
+                inp.required_time_lock_time().is_none() && inp.required_height_lock_time().is_none(),
+                "pczt-input-unrequested-lock-time",
+                "transparent input {n}: lock time requirement {:?} / {:?}",
+                inp.required_time_lock_time(),
+                inp.required_height_lock_time()
+            );
+            vensure!(
+                inp.script_sig().is_none() && inp.partial_signatures().is_empty(),
+                "pczt-input-unrequested-authorization",
+                "transparent input {n}: script_sig {:?}, {} partial signatures",
+                inp.script_sig(),
+                inp.partial_signatures().len()
+            );
+            vensure!(
+                inp.bip32_derivation().is_empty()
+                    && inp.ripemd160_preimages().is_empty()
+                    && inp.sha256_preimages().is_empty()
+                    && inp.hash160_preimages().is_empty()
+                    && inp.hash256_preimages().is_empty()
+                    && inp.proprietary().is_empty(),
+                "pczt-input-unrequested-metadata",
+                "transparent input {n} carries derivation / preimage / proprietary entries nobody requested"
+            );
         }
     }
     t_bal -= vout.iter().map(|(v, _)| *v as i128).sum::<i128>();
@@ -166,6 +223,8 @@ pub fn check_pczt(c: &Case, p: &Plan, w: &World, res: PcztResult<LocalNetwork>) 
             continue;
         };
         let actions = b.actions();
+        // deferred builder: "the emitted PCZT carries ABSENT anchor and witness fields"
+        vensure_eq!(*b.anchor_deferred(), deferred, "pczt-anchor-deferral-flag", "{name}: anchor_deferred");
         counts[slot] = actions.len();
         bals[slot] = orchard_value_sum(b.value_sum())?;
         let mut spend_used = vec![false; actions.len()];
@@ -179,6 +238,10 @@ pub fn check_pczt(c: &Case, p: &Plan, w: &World, res: PcztResult<LocalNetwork>) 
             };
             spend_used[j] = true;
             vensure_eq!(actions[j].spend().value().map(|v| v.inner()), Some(p.val[kin][i]), "orchard-spend-wrong-value", "{name} spend {n} declared value");
+            // documented on the bundle's `anchor_deferred`: "the real spends' `witness` fields are `None`"
+            if deferred {
+                vensure!(actions[j].spend().witness().is_none(), "deferred-builder-witness-present", "{name}: requested spend {n} (action {j}) carries a witness although its anchor is deferred");
+            }
         }
         // BundleMetadata rustdoc: requested outputs are numbered plain outputs first (in the order
         // added), then the wallet-controlled change outputs (in the order added)
@@ -248,7 +311,7 @@ pub fn check_pczt(c: &Case, p: &Plan, w: &World, res: PcztResult<LocalNetwork>) 
 
     // ---- shape, balances, fee
     let observed = Shape {
-        t_in: vin.len(),
+        t_in_sizes,
         t_out_sizes: vout.iter().map(|(_, s)| txout_size(s.len())).collect(),
         s_spends,
         s_outputs,
@@ -265,16 +328,48 @@ pub fn check_pczt(c: &Case, p: &Plan, w: &World, res: PcztResult<LocalNetwork>) 
     let paid = t_bal + s_bal + bals[0] + bals[1];
     vensure!(paid >= 0, "fee-negative", "pool balances sum to {paid}");
     seen.fee = paid as u128;
-    match ref_fee(&c.rule, &observed) {
-        Some(f) if paid as u128 != f && p.undecided_shape && ref_fee(&c.rule, &p.shape) == Some(paid as u128) => vfail!(
-            SIG_FEE_OMITTED_BUNDLE,
-            "fee paid {paid} includes the padding of a required bundle that the {:?} result does not carry; the rule prescribes {f} for the result shape {observed:?}",
-            p.eff_ver
-        ),
-        Some(f) => vensure!(paid as u128 == f, "fee-not-fee-rule-of-result-shape", "fee paid {paid} but the rule {:?} prescribes {f} for the result shape {observed:?} (version {:?})", c.rule, p.eff_ver),
-        None => vfail!("fee-not-fee-rule-of-result-shape", "PCZT built although the fee of its shape {observed:?} is not a valid amount"),
+    // the deferred builder's `get_fee` is the fee that `build_for_pczt` enforces
+    if let Some(a) = announced {
+        vensure_eq!(a as i128, paid, "deferred-get-fee-disagrees-with-build", "get_fee before build_for_pczt vs the fee paid by the emitted parts");
     }
-    if !p.undecided_shape {
+    // `BundlePadding::bundle_required`: "Produce a bundle even when no spends or outputs have been
+    // added; the resulting bundle then consists entirely of dummy actions." The deferred builder
+    // charges for those actions but does not emit them.
+    let deferred_required_omitted = deferred
+        && ((p.shape.o_actions > 0 && counts[0] == 0 && c.orc_pad.required && p.n_acc(O_IN) + p.n_acc(O_OUT) == 0)
+            || (p.shape.i_actions > 0 && counts[1] == 0 && c.iro_pad.required && p.n_acc(I_IN) + p.n_acc(I_OUT) == 0));
+    let mut skip_shape = p.undecided_shape;
+    if deferred_required_omitted {
+        if !crate::known_hit(SIG_DEFERRED_REQUIRED_BUNDLE) {
+            vfail!(
+                SIG_DEFERRED_REQUIRED_BUNDLE,
+                "DeferredPcztBuilder (orchard padding {:?}, ironwood padding {:?}): fee paid {paid} = get_fee {announced:?} prices {} Orchard + {} Ironwood actions, but the emitted parts carry {} + {} actions, for which the rule {:?} prescribes {:?}; a bundle_required pool without content is charged but not emitted",
+                c.orc_pad,
+                c.iro_pad,
+                p.shape.o_actions,
+                p.shape.i_actions,
+                counts[0],
+                counts[1],
+                c.rule,
+                ref_fee(&c.rule, &observed)
+            );
+        }
+        // known: what was paid must at least be the fee of the planned (charged) shape
+        vensure!(ref_fee(&c.rule, &p.shape) == Some(paid as u128), "fee-not-fee-rule-of-result-shape", "fee paid {paid} but the rule {:?} prescribes {:?} for the charged shape {:?}", c.rule, ref_fee(&c.rule, &p.shape), p.shape);
+        skip_shape = true;
+        seen.known_deferred_required += 1;
+    } else {
+        match ref_fee(&c.rule, &observed) {
+            Some(f) if paid as u128 != f && p.undecided_shape && ref_fee(&c.rule, &p.shape) == Some(paid as u128) => vfail!(
+                SIG_FEE_OMITTED_BUNDLE,
+                "fee paid {paid} includes the padding of a required bundle that the {:?} result does not carry; the rule prescribes {f} for the result shape {observed:?}",
+                p.eff_ver
+            ),
+            Some(f) => vensure!(paid as u128 == f, "fee-not-fee-rule-of-result-shape", "fee paid {paid} but the rule {:?} prescribes {f} for the result shape {observed:?} (version {:?})", c.rule, p.eff_ver),
+            None => vfail!("fee-not-fee-rule-of-result-shape", "PCZT built although the fee of its shape {observed:?} is not a valid amount"),
+        }
+    }
+    if !skip_shape {
         vensure!(observed == p.shape, "shape-not-requested-plus-padding", "result shape {observed:?}, requested content plus prescribed padding {:?}", p.shape);
     }
     vensure!(p.diff() == Some(0), "built-unbalanced-request", "PCZT built although inputs - outputs - fee = {:?}", p.diff());
